@@ -236,3 +236,54 @@ Proof.
   split; [exact RRGenProofs.rrgen_er|]. split; [exact RRGenProofs.rrgen_nm|]. split; [exact RRGenProofs.rrgen_pd|].
   split; [exact RRGenProofs.rrgen_sl_component|]. split; [exact RRGenProofs.rrgen_sl_record|]. exact RRGenProofs.rrgen_areas.
 Qed.
+
+(* ---- relocation of deep directories: Model/Reloc.v --------------------------------------------------------------
+   The object graph under add_directory / rm_directory / add_fp / add_symlink / rm_file with RR_MOVED, placeholders (CL),
+   relocated directories (RE) and their `..` (PL), as a state machine (the repaired code: 6984eda, cd1f033, 4a3ef6f, 3cc255b,
+   42db27e); `view` is the physical layout (per directory extent the records with names, flags, extents, CL/PL/RE, link
+   counts), `rr_reader` an independent reader in the style of the Linux isofs driver (follows CL taking the name from the
+   placeholder, skips RE, hides the root's RR_MOVED), `logical_spec` what the edits imply.  For EVERY accepted history: *)
+From PV.Model Require RelocCore RelocView Reloc.
+From PV.Proofs Require RelocProofs.
+Section RelocStatements.
+Import PV.Model.RelocCore PV.Model.RelocView PV.Model.Reloc.
+Local Open Scope Z_scope.
+
+Theorem C08_relocation_reader_sees_the_logical_tree : forall (sz : ppath -> Z) (start : Z), (forall x, 1 <= sz x) ->
+  forall (ops : list op) (fuel : nat), run_ok init ops = true -> (fuel_of (run init ops) <= fuel)%nat ->
+  rr_reader (view sz start (run init ops)) start fuel = Some (expected (logical_spec ops)).
+Proof. exact RelocProofs.reloc_reader_sees_logical_tree. Qed.
+
+Theorem C08_relocation_logical_tree_is_the_specification : forall ops, run_ok init ops = true -> logical (run init ops) = logical_spec ops.
+Proof. exact RelocProofs.reloc_logical_is_spec. Qed.
+
+(* every CL lands on exactly one directory that RR_MOVED lists with RE and whose `..` carries PL back to the placeholder's
+   directory; every RE record lies in RR_MOVED and is reached by a CL; two CLs never share a target; each extent names one directory *)
+Theorem C08_relocation_links_consistent : forall (sz : ppath -> Z) (start : Z), (forall x, 1 <= sz x) -> forall ops : list op,
+  (forall e recs r c, In (e, recs) (view sz start (run init ops)) -> In r recs -> r_cl r = Some c ->
+     exists dotr ddr rest mrecs mr,
+       lookup (view sz start (run init ops)) c = Some (dotr :: ddr :: rest) /\ r_ext dotr = c /\ r_pl ddr = Some e /\
+       lookup (view sz start (run init ops)) (ext_of sz start (run init ops) [moved_name]) = Some mrecs /\
+       In mr mrecs /\ r_re mr = true /\ r_ext mr = c /\ r_rr mr = r_rr r /\ r_dir mr = true) /\
+  (forall e recs mr, In (e, recs) (view sz start (run init ops)) -> In mr recs -> r_re mr = true ->
+     e = ext_of sz start (run init ops) [moved_name] /\
+     exists e' recs' r, In (e', recs') (view sz start (run init ops)) /\ In r recs' /\ r_cl r = Some (r_ext mr) /\ r_rr r = r_rr mr) /\
+  (forall e1 recs1 r1 e2 recs2 r2 c, In (e1, recs1) (view sz start (run init ops)) -> In r1 recs1 -> r_cl r1 = Some c ->
+     In (e2, recs2) (view sz start (run init ops)) -> In r2 recs2 -> r_cl r2 = Some c -> e1 = e2 /\ r1 = r2) /\
+  NoDup (map fst (view sz start (run init ops))).
+Proof. exact RelocProofs.reloc_links_consistent. Qed.
+
+Theorem C08_relocation_refused_edit_changes_nothing : forall s o, snd (step s o) <> Acc -> fst (step s o) = s.
+Proof. exact RelocProofs.reloc_refused_unchanged. Qed.
+
+(* what the library records deviates from "2 + logical sub-directories" exactly here (stated, not repaired: the root counts
+   RR_MOVED, and the `..` of a relocated directory carries RR_MOVED's count); and descendants of a relocated directory can
+   sit deeper than 8 physical levels *)
+Theorem C08_relocation_root_link_count_refuted : exists ops : list op, run_ok init ops = true /\
+  rr_root_nlink (view RelocProofs.one 23 (run init ops)) 23 (fuel_of (run init ops)) <> Some (2 + ldirs (logical_spec ops)).
+Proof. exact RelocProofs.reloc_nlink_root_refuted. Qed.
+
+Theorem C08_relocation_physical_depth_refuted : exists ops : list op, run_ok init ops = true /\
+  exists p : ppath, In p (ppaths (run init ops)) /\ (8 < length p)%nat.
+Proof. exact RelocProofs.reloc_physical_depth_refuted. Qed.
+End RelocStatements.
